@@ -338,6 +338,9 @@ func (i *interpreter) classifyPanic(r any) string {
 	case pathAbort:
 		return r.status
 	case engineError:
+		if debugStacks {
+			fmt.Fprintln(os.Stderr, "engineError:", r.msg, i.panicStack)
+		}
 		return "unsupported: " + r.msg
 	case killPanic:
 		return "killed"
@@ -372,6 +375,9 @@ func (i *interpreter) classifyPanic(r any) string {
 			strings.Contains(r, "call of nil function") {
 			i.recordPanic(r)
 			return "panic"
+		}
+		if debugStacks {
+			fmt.Fprintln(os.Stderr, "engine string panic:", r, i.panicStack)
 		}
 		return "engine: " + r + " @ " + i.where()
 	default:
